@@ -18,7 +18,7 @@ from vlib.core import Stage, fail
 ID = "C05"
 MANIFEST = {
     "category": "exploration",
-    "text": "Generated-input search with metamorphic oracles: for a generated valid expression, a drawn site and a drawn transformation (and-ing a hint onto the root or onto any operand of U/O/X, attaching a format constraint on either side of any rc-carrying sub-expression, re-rendering with redundant brackets/other spelling, permuting the operands of any U/O/X) the transformed expression must still evaluate (no InvalidExpressionError, no other exception) and yield the identical (fulfilled, is_conditional) under 1-8 assignments. The refine stage blanks 1-3 keys of a total assignment to UNKNOWN and, when the outcome stays definite, checks every FULFILLED/UNFULFILLED refinement. The evaluator style (dict based / shipped ContentEvaluationResult based / the latter with mixed-case states) and the hint texts (incl. the empty text, '%', braces, quotes) are part of the generated case. Stage many-occurrences (enumerated): expressions with 102-131 (thorough: 65-261) occurrences of two keys and their swapped / hinted / constrained variants. A quarter of the format-constraint attachments attach a bracketed composition of two format constraints on the right.",
+    "text": "Generated-input search with metamorphic oracles: for a generated valid expression, a drawn site and a drawn transformation (and-ing a hint onto the root or onto any operand of U/O/X, attaching a format constraint on either side of any rc-carrying sub-expression, re-rendering with redundant brackets/other spelling, permuting the operands of any U/O/X) the transformed expression must still evaluate (no InvalidExpressionError, no other exception) and yield the identical (fulfilled, is_conditional) under 1-8 assignments. Original and variant are additionally parsed once each and the two Tree objects evaluated under all the assignments one after the other (tree entry point): same outcomes as from the strings. The refine stage blanks 1-3 keys of a total assignment to UNKNOWN and, when the outcome stays definite, checks every FULFILLED/UNFULFILLED refinement. The evaluator style (dict based / shipped ContentEvaluationResult based / the latter with mixed-case states) and the hint texts (incl. the empty text, '%', braces, quotes) are part of the generated case. Stage many-occurrences (enumerated): expressions with 102-131 (thorough: 65-261) occurrences of two keys and their swapped / hinted / constrained variants. A quarter of the format-constraint attachments attach a bracketed composition of two format constraints on the right.",
     "note": "Trusted: AST transformations and renderer in this module / vlib/gen.py. Only the requirement outcome is compared (hints and the collected format-constraint expression legitimately change). Bounded by 12/30 atoms. Process configuration by shard (vlib/sut.py; recorded in replay files): plain / parse caches preheated beyond their size / warnings attributed to ahbicht raised as errors / logging fully enabled with every record rendered; one event loop per process or a new one per call; five process time zones; the hash seed is the shard number; namesakes of ahbicht's marshmallow schema classes are registered. Every registry of evaluators / providers / resolvers that the harness builds (sut.configure) also holds one of each kind that names no EDIFACT format and no format version; these must never be asked.",
     "technique": "property-based testing with metamorphic relations (transformed expression vs original; partial vs refined assignment)",
 }
